@@ -106,6 +106,9 @@ def main(argv=None):
             results.append(r)
             by_key[json.dumps(r["shard"], sort_keys=True, default=repr)] = r
     t_pool = time.time() - t0
+    if os.environ.get("VERIF_SHOW_SLOW"):
+        for r in sorted(results, key=lambda r: -r["wall"])[:int(os.environ["VERIF_SHOW_SLOW"])]:
+            print("SLOW %.1fs %s" % (r["wall"], json.dumps(r["shard"], sort_keys=True, default=repr)[:160]))
     tot = report.merge(results)
     meta = mod.meta(a.tier, seed) if hasattr(mod, "meta") else dict(getattr(mod, "META", {}))
 
